@@ -123,6 +123,17 @@ func (e *restoreEnv) uninstall() {
 	util.VerifReadHook = nil
 }
 
+// restoreCatch: like catch, but a panic with an empty message (ui.Fatal -> panic("")) is still a panic
+func restoreCatch(f func()) (p string) {
+	defer func() {
+		if r := recover(); r != nil {
+			p = "panic: " + fmt.Sprint(r)
+		}
+	}()
+	f()
+	return ""
+}
+
 func restoreCZ(s string) string {
 	n, err := strconv.Atoi(strings.TrimSpace(s))
 	if err != nil {
@@ -221,12 +232,12 @@ func restoreRun(e *restoreEnv, in restoreIn) (restoreObs, string, []string) {
 		if in.Backend == "cmd" {
 			os.WriteFile(filepath.Join(e.dir, "verdicts"), []byte(in.V1+"\n"+in.V2+"\n"), 0644)
 		}
-		panicked = catch(func() { c.VerifRestore() })
+		panicked = restoreCatch(func() { c.VerifRestore() })
 	} else {
 		e.wPwm = nil
 		e.wMode = []string{in.MV, in.MV2}
 		e.rMo = []string{in.RB, in.RB2}
-		panicked = catch(func() { obs.Err = controller.VerifTrySetManualPwm(fan) != nil })
+		panicked = restoreCatch(func() { obs.Err = controller.VerifTrySetManualPwm(fan) != nil })
 	}
 	if in.Backend == "cmd" {
 		if b, err := os.ReadFile(filepath.Join(e.dir, "log")); err == nil {
